@@ -38,12 +38,22 @@ def base_case(draw, names, tier="quick"):
             "phases": draw(st.one_of(st.just([]), st.lists(st.tuples(st.sampled_from(["sample", "warmup"]), st.integers(0, 4)), min_size=2, max_size=4)))}
 
 
+FAILT = {"n": None}     # countdown to one failure of the user's log-density (armed by the exception-safety part of C14/experimental)
+
+
 def smooth_target(c):
     import cuqi
     n = c["n"]
     H = gen.spd_from(A(c["G"])[:n, :n], 0.6)
     a = A(c["a"])[:n]
-    f = lambda x: float(-0.5 * (np.asarray(x) - a) @ H @ (np.asarray(x) - a))
+    def f(x):
+        # (a user log-density that fails once - a transient error, an interrupt - when the harness arms FAILT)
+        if FAILT["n"] is not None:
+            FAILT["n"] -= 1
+            if FAILT["n"] <= 0:
+                FAILT["n"] = None
+                raise RuntimeError("user log-density failed once")
+        return float(-0.5 * (np.asarray(x) - a) @ H @ (np.asarray(x) - a))
     g = lambda x: -(H @ (np.asarray(x) - a))
     return cuqi.distribution.UserDefinedDistribution(dim=n, logpdf_func=f, gradient_func=g)
 
@@ -213,6 +223,27 @@ def run_exp(c, rec):
                     "the uninterrupted run (a transition was made but not recorded, or recorded twice)", interrupted=XR.shape, uninterrupted=XA.shape)
             require(all(ns == i + 1 for i, ns in seen_ns), f"{name}: at the time of the callback the state it is handed is not yet part of the recorded chain",
                     pairs=seen_ns[:6])
+        # ---- (iii-c) the user's log-density fails once in the middle of a transition; the user catches the error and goes on:
+        # from then on the sampler makes the transitions a fresh sampler started at the same point makes from the same stream
+        if name in ("MH", "CWMH", "ULA", "MALA") and N >= 2:
+            np.random.seed(c["seed"])
+            sF = make_exp(c)
+            sF.sample(1)
+            FAILT["n"] = 2 + c["seed"] % 4
+            try:
+                refuses(lambda: sF.sample(3))
+            finally:
+                FAILT["n"] = None
+            xc = np.array(sF.current_point, dtype=float).reshape(-1).copy()
+            np.random.seed(4242)
+            must(lambda: sF.sample(3), "sampling on after a failure of the user's log-density")
+            cont = chain_of(sF)[:, -3:]
+            np.random.seed(4242)
+            fresh = make_exp(dict(c, x0=list(xc) + [0.0] * (3 - len(xc))))
+            fresh.sample(3)
+            want = chain_of(fresh)[:, -3:]
+            require(maxdiff(cont, want) == 0, f"{name}: after an exception of the user's log-density in the middle of a transition the sampler does not continue "
+                    "like a fresh sampler started at the same point (its cached evaluations no longer belong to its current point)", continued=cont, fresh=want)
         # ---- (i) continuity: N then M
         np.random.seed(c["seed"])
         sB = make_exp(c)
